@@ -128,10 +128,10 @@ def run(F, ctx):
             if dl is None or len(tg) != 1 or tg[0][0] != "0":
                 continue
             false_t, true_t = tg[0][1], t.get("else")
-            for st in g.stmts(i):
+            srcs = common.origins(g, dl) | {dl}
+            defs = [st for j in range(g.n) for st in g.stmts(j) if st["d"]["l"] in srcs and not proj(st["d"]) and st["r"].get("k") == "bin"]
+            for st in defs:
                 rv = st["r"]
-                if st["d"]["l"] != dl or rv.get("k") != "bin":
-                    continue
                 a_, b_ = op_local(rv["a"]), op_local(rv["b"])
                 ca, cb = rv["a"].get("v") if a_ is None else None, rv["b"].get("v") if b_ is None else None
                 op = rv["op"]
